@@ -42,6 +42,7 @@ func runC06(c *Ctx) {
 	r.Rule("C06.clone-reset-exhaustive", "every field of Curl is value-typed; Clone's result carries each field of the receiver; Reset stores all-ones to all 729 words of both planes and Absorbing to direction")
 	r.NotDec("equality with a reference sponge over arbitrary Absorb/Squeeze/Clone/Reset histories (composition of the decided premises with C20)")
 
+	pureScan(c, "C06.pure.no-package-state", c.P.Func("pkg/curl", "Curl.Absorb"), c.P.Func("pkg/curl", "Curl.Squeeze"), c.P.Func("pkg/curl", "Curl.Clone"), c.P.Func("pkg/curl", "Curl.Reset"), c.P.Func("pkg/curl", "Curl.CopyState"), c.P.Func("pkg/curl", "NewCurlP81"))
 	W := c.wordBits()
 	c06Lanes(c, W)
 	c06Sponge(c)
